@@ -330,6 +330,20 @@ async fn h_echo(
         .unwrap())
 }
 
+/// POST /typed: a typed JSON body (C18: odd but legal `Content-Type` spellings).
+#[derive(Deserialize, JsonSchema)]
+struct TypedIn {
+    #[allow(dead_code)]
+    n: u32,
+}
+#[endpoint { method = POST, path = "/typed" }]
+async fn h_typed(
+    _rqctx: RequestContext<Arc<Ctx>>,
+    _body: dropshot::TypedBody<TypedIn>,
+) -> Result<http::Response<Body>, HttpError> {
+    Ok(http::Response::builder().status(200).header("content-type", "text/plain").body(Body::from("typed")).unwrap())
+}
+
 /// GET /fail/{r}: handler returns an HttpError with status `r` (4xx/5xx).
 #[endpoint { method = GET, path = "/fail/{r}" }]
 async fn h_fail(
@@ -358,6 +372,7 @@ pub fn api() -> ApiDescription<Arc<Ctx>> {
     api.register(h_health).unwrap();
     api.register(h_id).unwrap();
     api.register(h_echo).unwrap();
+    api.register(h_typed).unwrap();
     api.register(h_fail).unwrap();
     api
 }
